@@ -1,4 +1,4 @@
-import Pyrtma.Proofs.ManagerSim
+import Pyrtma.Proofs.ManagerSimInfo
 import Pyrtma.Proofs.ManagerOrder
 /-!
 # Refinement of the history-based Spec by the manager model M1 — part 3: one frame read
@@ -48,6 +48,21 @@ theorem ackSends_frames (evs : List Ev) (P : Frame → Prop) (h : ∀ p ∈ data
   have : (p.1, p.2.2) ∈ dataSends isAck evs := by
     rw [← ackSends_map]; exact List.mem_map.mpr ⟨p, hp, rfl⟩
   exact h (p.1, p.2.2) this
+
+theorem sends_filter_map (B : Body → Bool) (evs : List Ev) :
+    ((Spec.sends evs).filter (fun p => B p.2.2.body)).map (fun p => (p.1, p.2.2)) = dataSends B evs := by
+  unfold Spec.sends dataSends
+  induction evs with
+  | nil => rfl
+  | cons e rest ih =>
+    cases e with
+    | send u c f =>
+      simp only [List.filterMap_cons]
+      by_cases hb : B f.body = true
+      · simp only [List.filter_cons, hb, if_true, List.map_cons, ih]
+      · have hb' : B f.body = false := by simpa using hb
+        simp only [List.filter_cons, hb', Bool.false_eq_true, if_false, ih]
+    | _ => simpa [List.filterMap_cons] using ih
 
 /-- the `B`-frames of an extension of the log -/
 theorem dataSends_ext {B : Body → Bool} {s s' : State} {ext : List Ev} (he : s'.out = s.out ++ ext) :
@@ -393,7 +408,7 @@ theorem checkAcks_sendAck (cfg : Cfg) (hperm : OrdPerm cfg) {x b : Spec.A} {s : 
 /-- a change of model fields the relation does not read -/
 theorem sim_same {cfg : Cfg} {a : Spec.A} {s s' : State} (hs : Sim cfg a s) (hm : s'.mods = s.mods)
     (hi : s'.idx = s.idx) (hl : s'.loggers = s.loggers) (hn : s'.nextUid = s.nextUid) (hf : s'.fail = s.fail) (hb : s'.buf = s.buf)
-    (hw : s'.wlist = s.wlist) : Sim cfg a s' := by
+    (hw : s'.wlist = s.wlist) (hd : s'.nextDyn = s.nextDyn := by rfl) : Sim cfg a s' := by
   have hfind : ∀ u, s'.find u = s.find u := fun u => by unfold State.find; rw [hm]
   exact ⟨hs.uids, by rw [hn]; exact hs.nacc, by rw [hf]; exact hs.fail, by rw [hb]; exact hs.buf,
     fun u hu => by rw [hfind]; exact hs.live u hu, fun u am m h1 h2 => hs.mods u am m h1 (by rw [← hfind]; exact h2),
@@ -401,7 +416,8 @@ theorem sim_same {cfg : Cfg} {a : Spec.A} {s s' : State} (hs : Sim cfg a s) (hm 
     fun u m h1 h2 => hs.logOut u m (by rw [← hl]; exact h1) (by rw [← hfind]; exact h2),
     fun u m h1 h2 => hs.logConn u m (by rw [← hfind]; exact h1) h2, by rw [hl]; exact hs.logNodup,
     by rw [hl, hn]; exact hs.logBound,
-    fun u m t h1 h2 => by rw [hi]; exact hs.idxIn u m t (by rw [← hfind]; exact h1) h2, by rw [hi]; exact hs.idxPos⟩
+    fun u m t h1 h2 => by rw [hi]; exact hs.idxIn u m t (by rw [← hfind]; exact h1) h2, by rw [hi]; exact hs.idxPos,
+    minv_same hs.minv hm hd⟩
 
 /-- an error extension (and any change of the statistics fields) of the abstract state -/
 theorem sim_coreExt {cfg : Cfg} {T : List String} {a a' : Spec.A} {s : State} (hs : Sim cfg a s) (h : Spec.CoreExt T a a') :
@@ -411,12 +427,14 @@ theorem sim_coreExt {cfg : Cfg} {T : List String} {a a' : Spec.A} {s : State} (h
   exact ⟨by rw [h.mods, h.nAccepted]; exact hs.uids, by rw [h.nAccepted]; exact hs.nacc, by rw [h.fail]; exact hs.fail,
     by rw [h.buf]; exact hs.buf, fun u hu => by rw [hlive]; exact hs.live u hu,
     fun u am m h1 h2 => hs.mods u am m (by rw [← hlive]; exact h1) h2,
-    fun u hl => by rw [h.w]; exact hs.w u (by rw [← hlive]; exact hl), hs.logIn, hs.logOut, hs.logConn, hs.logNodup, hs.logBound, hs.idxIn, hs.idxPos⟩
+    fun u hl => by rw [h.w]; exact hs.w u (by rw [← hlive]; exact hl), hs.logIn, hs.logOut, hs.logConn, hs.logNodup, hs.logBound, hs.idxIn, hs.idxPos,
+    hs.minv⟩
 
 /-- the receive buffer is written on both sides -/
 theorem sim_buf {cfg : Cfg} {a : Spec.A} {s : State} (hs : Sim cfg a s) (b : List Nat) :
     Sim cfg { a with buf := b } { s with buf := b } :=
-  ⟨hs.uids, hs.nacc, hs.fail, rfl, hs.live, hs.mods, hs.w, hs.logIn, hs.logOut, hs.logConn, hs.logNodup, hs.logBound, hs.idxIn, hs.idxPos⟩
+  ⟨hs.uids, hs.nacc, hs.fail, rfl, hs.live, hs.mods, hs.w, hs.logIn, hs.logOut, hs.logConn, hs.logNodup, hs.logBound, hs.idxIn, hs.idxPos,
+   minv_same hs.minv rfl rfl⟩
 
 theorem live_upd (a : Spec.A) (u v : Nat) (f : Spec.AMod → Spec.AMod) (hf : ∀ m, (f m).uid = m.uid)
     (ha : ∀ m, (f m).alive = m.alive) :
@@ -440,6 +458,7 @@ theorem sim_upd_find {cfg : Cfg} {a : Spec.A} {s s' : State} (hs : Sim cfg a s) 
     (hl : s'.loggers = s.loggers) (hn : s'.nextUid = s.nextUid) (hf : s'.fail = s.fail) (hb : s'.buf = s.buf)
     (hw : s'.wlist = s.wlist)
     (hidx : ∀ v m t, s'.find v = some m → t ∈ m.subs → v ∈ idxGet s'.idx t) (hpos : ∀ t v, v ∈ idxGet s'.idx t → v ≠ 0)
+    (hminv : MInvOn (fun _ => True) cfg s')
     (hrel : ∀ am m, a.live u = some am → s.find u = some m → SimMod cfg am m → SimMod cfg (fa am) (fm m))
     (hlg : ∀ m, (fm m).isLogger = m.isLogger) (hcn : ∀ m, (fm m).connected = m.connected) :
     Sim cfg (a.upd u fa) s' := by
@@ -447,7 +466,7 @@ theorem sim_upd_find {cfg : Cfg} {a : Spec.A} {s s' : State} (hs : Sim cfg a s) 
   refine ⟨by rw [Spec.uids_upd a u fa hfa]; exact hs.uids, by rw [hn]; exact hs.nacc, by rw [hf]; exact hs.fail,
     by rw [hb]; exact hs.buf, fun v hv => ?_, fun v am m h1 h2 => ?_,
     fun v hl' => ?_, fun v m h1 h2 => ?_, fun v m h1 h2 => ?_, fun v m h1 h2 => ?_, by rw [hl]; exact hs.logNodup,
-    by rw [hl, hn]; exact hs.logBound, hidx, hpos⟩
+    by rw [hl, hn]; exact hs.logBound, hidx, hpos, hminv⟩
   · rw [hlive, hfind, Option.isSome_map, Option.isSome_map]; exact hs.live v hv
   · rw [hlive] at h1; rw [hfind] at h2
     cases ha : a.live v with
@@ -509,9 +528,21 @@ theorem sim_upd {cfg : Cfg} {a : Spec.A} {s : State} (hs : Sim cfg a s) (u : Nat
     (hfa : ∀ m, (fa m).uid = m.uid) (haa : ∀ m, (fa m).alive = m.alive) (hfm : ∀ m, (fm m).uid = m.uid)
     (hrel : ∀ am m, a.live u = some am → s.find u = some m → SimMod cfg am m → SimMod cfg (fa am) (fm m))
     (hlg : ∀ m, (fm m).isLogger = m.isLogger) (hcn : ∀ m, (fm m).connected = m.connected)
-    (hsb : ∀ m, (fm m).subs = m.subs) :
+    (hsb : ∀ m, (fm m).subs = m.subs) (hu0 : u ≠ 0) (hmid : ∀ m, (fm m).modId = m.modId) :
     Sim cfg (a.upd u fa) (s.upd u fm) := by
-  refine sim_upd_find hs u fa fm hfa haa (fun v => find_upd s u v fm hfm) rfl rfl rfl rfl rfl ?_ hs.idxPos hrel hlg hcn
+  have hmi : MInvOn (fun _ => True) cfg (s.upd u fm) := by
+    have h1 := minv_find (fm := fm) hs.minv hu0 (uids_upd s u fm hfm) (fun v => find_upd s u v fm hfm) rfl
+    refine minv_close h1 (fun m' hm' hc => ?_)
+    rw [find_upd s u u fm hfm] at hm'
+    cases h0 : s.find u with
+    | none => simp [h0] at hm'
+    | some x =>
+      simp only [h0, Option.map_some, Option.some.injEq] at hm'
+      subst hm'
+      split at hc <;> rename_i hx
+      · simp only [hx, if_true]; rw [hmid]; exact hs.minv.unconn u x trivial h0 (by rw [← hcn]; exact hc)
+      · simp only [hx, Bool.false_eq_true, if_false]; exact hs.minv.unconn u x trivial h0 hc
+  refine sim_upd_find hs u fa fm hfa haa (fun v => find_upd s u v fm hfm) rfl rfl rfl rfl rfl ?_ hs.idxPos hmi hrel hlg hcn
   intro v m' t hm' ht
   rw [find_upd s u v fm hfm] at hm'
   cases hm0 : s.find v with
@@ -603,6 +634,7 @@ structure QuietTo (cfg : Cfg) (s1 s2 : State) : Prop where
   j : J s2
   noAck : Quiet isAck s1 s2
   noData : ∀ k, Quiet (cp k) s1 s2
+  info : InfoTo s1 (fun _ => False) s1 s2
 
 theorem noErr_applyDepartures {p : String} {a : Spec.A} (evs : List Ev) (h : Spec.NoErr p a) :
     Spec.NoErr p (Spec.applyDepartures a evs) := by
@@ -732,14 +764,14 @@ end pm
 /-! ## one frame: the cases -/
 
 /-- the properties whose Spec clauses are proved to hold on every run of the model -/
-def proven : List String := ["C19", "C01"]
+def proven : List String := ["C19", "C01", "C06"]
 
 /-- the tags of all the other clauses -/
-def others : List String := ["C03", "C05", "C06", "C07", "C14", "C18"]
+def others : List String := ["C03", "C05", "C07", "C14", "C18"]
 
 theorem proven_not {p : String} (hp : p ∈ proven) : p ∉ others := by
   simp only [proven, List.mem_cons, List.not_mem_nil, or_false] at hp
-  rcases hp with rfl | rfl <;> decide
+  rcases hp with rfl | rfl | rfl <;> decide
 
 theorem ext_others {T : List String} {a b : Spec.A} (h : Spec.ErrExt T a b)
     (hs : ∀ p, p ∈ T → p ∈ others := by simp [others]) : Spec.CoreExt others a b := (h.mono hs).core
@@ -841,53 +873,6 @@ theorem seg_setName_bad (hn : (rd.h.mtype == cfg.mtSetName) = true) (hnm : cstr 
     rw [Spec.checkAcks_false_ok cfg _ rd.uid evs hnil]
     exact ext_others (Spec.checkDepartures_ext cfg _ _ evs)
   exact segGoal_of hseg rfl (seg_close (rdState_sim inv.sim rd) (rdState_top ok hfuel inv.top rd) n q evs he hW)
-
-theorem seg_setName (hn : (rd.h.mtype == cfg.mtSetName) = true) (nm : List Nat)
-    (hnm : cstr (rdState cfg s rd).buf 0 32 = some nm) : SegGoal cfg a rd evs s2 := by
-  rw [readOne_whole cfg s rd inv.top.good.ok m hm hb, pm_setName cfg _ _ _ hc hd hs hn nm hnm] at q
-  have hseg := Spec.segment_setName cfg a rd evs am hget hal hb hc hd hs hn nm
-    (by rw [bufs_eq inv.sim rd]; exact hnm)
-  generalize hmm : lookupMod ((rdState cfg s rd).upd rd.uid fun m => { m with name := nm }) rd.uid = mm at q
-  have hs0 : Sim cfg ((Spec.afterBuf cfg a rd).upd rd.uid (fun m => { m with name := nm }))
-      ((rdState cfg s rd).upd rd.uid (fun m => { m with name := nm })) :=
-    sim_upd (rdState_sim inv.sim rd) rd.uid _ _ (fun _ => rfl) (fun _ => rfl) (fun _ => rfl)
-      (fun am m _ _ h => ⟨h.connected, h.modId, h.unique, h.isLogger, h.isDaemon, rfl, h.pid, h.subs, h.noAll⟩)
-      (fun _ => rfl) (fun _ => rfl) (fun _ => rfl)
-  have t0 : Top cfg ((rdState cfg s rd).upd rd.uid (fun m => { m with name := nm })) :=
-    top_upd ok hfuel (rdState_top ok hfuel inv.top rd) rd.uid _ (fun _ => rfl) (fun _ => rfl) (fun _ => rfl)
-  have n := (logTop_nest cfg 20 ((rdState cfg s rd).upd rd.uid (fun m => { m with name := nm }))).trans
-    (infoOf_nest cfg _ mm)
-  have qa := (qa_log cfg 20 ((rdState cfg s rd).upd rd.uid (fun m => { m with name := nm }))).trans (qa_info cfg _ mm)
-  have hnil := acks_nil_of_quiet qa q evs he
-  have hW : Spec.CoreExt others ((Spec.afterBuf cfg a rd).upd rd.uid (fun m => { m with name := nm }))
-      (Spec.checkInfos (Spec.checkDepartures cfg (Spec.checkAcks cfg
-        ((Spec.afterBuf cfg a rd).upd rd.uid (fun m => { m with name := nm })) rd.uid false evs) none evs) evs) := by
-    rw [Spec.checkAcks_false_ok cfg _ rd.uid evs hnil]
-    exact (ext_others (Spec.checkDepartures_ext cfg _ _ evs)).trans (ext_others (Spec.checkInfos_ext _ evs))
-  exact segGoal_of hseg rfl (seg_close hs0 t0 n q evs he hW)
-
-theorem seg_ready (hn : (rd.h.mtype == cfg.mtSetName) = false) (hr : (rd.h.mtype == cfg.mtModuleReady) = true) :
-    SegGoal cfg a rd evs s2 := by
-  rw [readOne_whole cfg s rd inv.top.good.ok m hm hb, pm_ready cfg _ _ _ hc hd hs hn hr] at q
-  have hseg := Spec.segment_ready cfg a rd evs am hget hal hb hc hd hs hn hr
-  rw [bufs_eq inv.sim rd] at hseg
-  generalize bufI32 (rdState cfg s rd).buf 0 = pid at q hseg
-  have hs0 : Sim cfg ((Spec.afterBuf cfg a rd).upd rd.uid (fun m => { m with pid := pid }))
-      ((rdState cfg s rd).upd rd.uid (fun m => { m with pid := pid })) :=
-    sim_upd (rdState_sim inv.sim rd) rd.uid _ _ (fun _ => rfl) (fun _ => rfl) (fun _ => rfl)
-      (fun am m _ _ h => ⟨h.connected, h.modId, h.unique, h.isLogger, h.isDaemon, h.name, rfl, h.subs, h.noAll⟩)
-      (fun _ => rfl) (fun _ => rfl) (fun _ => rfl)
-  have t0 : Top cfg ((rdState cfg s rd).upd rd.uid (fun m => { m with pid := pid })) :=
-    top_upd ok hfuel (rdState_top ok hfuel inv.top rd) rd.uid _ (fun _ => rfl) (fun _ => rfl) (fun _ => rfl)
-  have n := sendInfo_nest cfg ((rdState cfg s rd).upd rd.uid (fun m => { m with pid := pid })) rd.uid
-  have qa := qa_sendInfo cfg ((rdState cfg s rd).upd rd.uid (fun m => { m with pid := pid })) rd.uid
-  have hnil := acks_nil_of_quiet qa q evs he
-  have hW : Spec.CoreExt others ((Spec.afterBuf cfg a rd).upd rd.uid (fun m => { m with pid := pid }))
-      (Spec.checkInfos (Spec.checkDepartures cfg (Spec.checkAcks cfg
-        ((Spec.afterBuf cfg a rd).upd rd.uid (fun m => { m with pid := pid })) rd.uid false evs) none evs) evs) := by
-    rw [Spec.checkAcks_false_ok cfg _ rd.uid evs hnil]
-    exact (ext_others (Spec.checkDepartures_ext cfg _ _ evs)).trans (ext_others (Spec.checkInfos_ext _ evs))
-  exact segGoal_of hseg rfl (seg_close hs0 t0 n q evs he hW)
 
 end cases
 
